@@ -43,7 +43,7 @@ MUT = ['seg_delete', 'seg_dup', 'seg_swap', 'seg_move', 'retag', 'extra_ele', 'e
 def tier_config(tier):
     if tier == 'thorough':
         return {'runs': 20000, 'wall': 820, 'det_probe': 4}
-    return {'runs': 600, 'wall': 110, 'det_probe': 3}
+    return {'runs': 2000, 'wall': 150, 'det_probe': 3}
 
 
 def generate(rng, tier, run, seed=0):
